@@ -15,7 +15,7 @@
    Both hypotheses are necessary: nested_shared_queue_refuted, removed_handlers_callback_lost_refuted. *)
 From Common Require Import Prelude.
 From Coq Require Import Sorting.Sorted.
-From C02 Require Import Model Relay ModeCtl LemSync LemQueue Lemmas LemRelay LemModeCtl.
+From C02 Require Import Model Relay ModeCtl Life Relock LemSync LemQueue LemOnce Lemmas LemRelay LemModeCtl LemLife LemRelock.
 Open Scope Z_scope.
 
 (* No later handler runs while an earlier handler's wait is outstanding: a dispatcher that is about to run its
@@ -34,6 +34,28 @@ Example queue_handlers_sequential_sat :
   reachable false s /\ exists i d q e, nth_error (disps s) i = Some d /\ d_st d = DSleep q e /\ (length (disps s) = 2)%nat.
 Proof. exact ex_sleeping. Qed.
 Print Assumptions queue_handlers_sequential_sat.
+
+(* The dispatcher re-checks the lock after EVERY wake-up (`while queue.waiter:`, fixes/C02-dispatcher-rechecks-wait.patch),
+   in any state whatsoever (also with queue objects shared between dispatches, where the first conjunct above does not
+   apply): woken while its queue is locked it invokes no handler and calls no callback, but sleeps again on a new Event
+   of the same queue with the same handlers remaining.  (Code as it was: relock_lost_wait_refuted.) *)
+Theorem queue_dispatcher_rechecks_lock :
+  forall lost s i d q,
+    nth_error (disps s) i = Some d -> d_st d = DReady q -> waiter_of q s = true ->
+    log (disp_step lost i s) = log s /\ outst (disp_step lost i s) = outst s /\
+    exists d', nth_error (disps (disp_step lost i s)) i = Some d' /\ d_st d' = DSleep q (nev s) /\ d_rem d' = d_rem d /\
+               d_psn d' = d_psn d /\ waiter_of q (disp_step lost i s) = true.
+Proof. exact queue_dispatcher_rechecks_lock_l. Qed.
+Print Assumptions queue_dispatcher_rechecks_lock.
+
+Example queue_dispatcher_rechecks_lock_sat :
+  let s := env_run false default_fuel ex_env3 (init_state ex_regs3) in
+  err s = false /\ existsb (obs_eqb (LCallback 0)) (log s) = false /\ length (filter not_done (disps s)) = 2%nat /\
+  outst s = [OFut 0%nat] /\ waiter_of 0 s = true /\
+  (let s' := env_run false default_fuel [[AClearNth 0]] s in
+   existsb (obs_eqb (LCallback 0)) (log s') = true /\ outst s' = []).
+Proof. exact ex_recheck. Qed.
+Print Assumptions queue_dispatcher_rechecks_lock_sat.
 
 (* FULL statement (DESIGN: queue_callback_once_after_waits): under fair clearing and fresh queues the callback of
    every posted queue event is observed exactly once, after all its handlers and all clears.
@@ -56,6 +78,36 @@ Example queue_callback_once_after_waits_sat :
   existsb (obs_eqb (LCallback 0)) (log s) = true /\ existsb (obs_eqb (LCallback 1)) (log s) = true.
 Proof. exact ex_complete. Qed.
 Print Assumptions queue_callback_once_after_waits_sat.
+
+(* FULL statement (work item of round 5; the bookkeeping invariant that was missing: LemOnce.v).
+   [ncallbacks p l] / [nqposts p l]: number of LCallback p / LPostQ p entries of the log.
+   For every reachable state of the event manager with both fixes (lost = false, fresh queues):
+   - the completion callback of a post has fired at most as often as the post was made, and a post number is used at
+     most once: AT MOST ONCE, and never without a post - at any time, whatever is in flight;
+   - whenever the loop is idle and nothing is outstanding (every registered wait has been cleared): EXACTLY ONCE for
+     every queue event that was posted.
+   Invariant behind it (reachable_bal): every queue post is in exactly one place - event_queue / the pending stack of
+   process_event_queue, callback_queue, a dispatcher that is not done, or the log as a completed callback.
+   "After every handler has run and every wait has been cleared" is the structure of the dispatcher: run_hs emits
+   LCallback only when its handler snapshot is exhausted (queue_handler_kwargs: one iteration per handler, head first)
+   and continues only when the previous queue is unlocked (queue_handlers_sequential, queue_dispatcher_rechecks_lock). *)
+Theorem queue_callback_once_after_waits :
+  forall s, reachable false s ->
+    (forall p, (ncallbacks p (log s) <= nqposts p (log s) <= 1)%nat) /\
+    (idle false s -> outst s = [] ->
+     (forall p, ncallbacks p (log s) = nqposts p (log s)) /\
+     (forall p, existsb (obs_eqb (LPostQ p)) (log s) = true -> ncallbacks p (log s) = 1%nat)).
+Proof. exact queue_callback_once_full_l. Qed.
+Print Assumptions queue_callback_once_after_waits.
+
+Example queue_callback_once_after_waits_full_sat :
+  let s := env_run false default_fuel ex_env2 (init_state ex_regs) in
+  reachable false s /\ idle false s /\ outst s = [] /\
+  nqposts 0 (log s) = 1%nat /\ ncallbacks 0 (log s) = 1%nat /\ nqposts 1 (log s) = 1%nat /\ ncallbacks 1 (log s) = 1%nat /\
+  (let s1 := env_run false default_fuel ex_env1 (init_state ex_regs) in
+   nqposts 0 (log s1) = 1%nat /\ ncallbacks 0 (log s1) = 0%nat /\ outst s1 <> []).
+Proof. exact ex_once. Qed.
+Print Assumptions queue_callback_once_after_waits_full_sat.
 
 (* the driver used by the correspondence run only produces reachable states *)
 Theorem driver_states_reachable :
@@ -298,3 +350,100 @@ Example ballend_waits_for_modes_sat :
    map (fun m => phase_code (gm_phase m)) (mc_modes st2) = [0; 0; 1]).
 Proof. exact ex_ballend. Qed.
 Print Assumptions ballend_waits_for_modes_sat.
+
+(* ---------------------------------------------------------------------------------------------- *)
+(* The whole life of the wait a use_wait_queue mode holds on the queue event that started it (Life.v): Mode.start as a
+   handler script of the event-manager machine, Mode._started / Mode.stop / Mode._stopped composed with it step by step,
+   for chains of modes whose start event is a lifecycle event of another mode.
+
+   Every state of the composition is a reachable state of the event-manager machine: queue_handlers_sequential (the
+   dispatcher of the outer queue event sleeps as long as the queue it handed to Mode.start is locked) and
+   queue_callback_once_after_waits_partial hold for it.  The fixed Mode.start does not pass its queue on. *)
+Theorem life_driver_reachable :
+  (forall regs n ops,
+    forallb (fun eh => fresh_h (snd eh)) regs = true -> forallb lop_fresh ops = true ->
+    reachable false (fst (fold_left (life_op default_fuel) ops (life_init regs n)))) /\
+  (forall uwq m g, forallb fresh_action (life_start_script uwq m g) = true).
+Proof. split; [exact life_driver_reachable_l | exact life_start_fresh_l]. Qed.
+Print Assumptions life_driver_reachable.
+
+(* Nesting clause: the composition releases the wait of a mode (AClearQ q in the effects of a log entry) for exactly one
+   reason - the entry is the completion callback of THAT mode's mode_<m>_stopping post, the mode was stopping and held q -
+   and with it the mode becomes idle and holds nothing (released once).  The environment cannot release a mode's wait,
+   and a stop request is honoured only for an active mode and releases nothing: it posts mode_<m>_stopping. *)
+Theorem life_release_only_when_stopped :
+  (forall c o q, In (AClearQ q) (sc_eff (scan1 c o)) ->
+     In (AClearQ q) (sc_eff c) \/
+     exists psn m e, o = LCallback psn /\ nth_error (sc_t c) m = Some e /\ le_phase e = LStopping /\ le_psn e = psn /\
+                     le_wq e = Some q /\ nth_error (sc_t (scan1 c o)) m = Some (mkLE LIdle None psn (le_gen e))) /\
+  (forall s t k q, nth_error (outst s) k = Some (OWait q) -> is_mode_wait q t = true -> life_env s t (LRelN k) = (s, t)) /\
+  (forall s t m, life_env s t (LStop m) =
+     match le_phase (get_ent m t) with
+     | LActive => (post (ev_of m 5 (pred (le_gen (get_ent m t)))) true None [] s,
+                   set_nth m (mkLE LStopping (le_wq (get_ent m t)) (npsn s) (le_gen (get_ent m t))) t)
+     | _ => (s, t)
+     end).
+Proof. split; [exact life_release_only_when_stopped_l | split; [exact life_env_guard_l | exact life_stop_spec_l]]. Qed.
+Print Assumptions life_release_only_when_stopped.
+
+Example life_release_only_when_stopped_sat :
+  map (fun e => (lphase_code (le_phase e), le_wq e)) (snd ex_life_st) = [(3, Some 0%nat)] /\
+  existsb inv7 (log (fst ex_life_st)) = false /\
+  existsb (obs_eqb (LCallback 0)) (log (fst ex_life_st)) = false /\
+  (let st := life_op default_fuel ex_life_st (LRelN 1) in
+   map (fun e => (lphase_code (le_phase e), le_wq e)) (snd st) = [(0, None)] /\
+   existsb inv7 (log (fst st)) = true /\
+   existsb (obs_eqb (LCallback 0)) (log (fst st)) = true /\ outst (fst st) = [] /\ err (fst st) = false).
+Proof. exact ex_life. Qed.
+Print Assumptions life_release_only_when_stopped_sat.
+
+(* The release moved from Mode._stopped into Mode.stop (wait released when the stop is REQUESTED): the later handler of
+   the outer queue event runs and the event completes while the mode is still stopping. *)
+Theorem life_early_release_refuted :
+  exists regs ops,
+    forallb (fun eh => fresh_h (snd eh)) regs = true /\ forallb lop_fresh ops = true /\
+    let st := fold_left (life_op_early default_fuel) ops (life_init regs 1) in
+    err (fst st) = false /\ map (fun e => lphase_code (le_phase e)) (snd st) = [3] /\
+    existsb inv7 (log (fst st)) = true /\ existsb (obs_eqb (LCallback 0)) (log (fst st)) = true.
+Proof. exact life_early_release_refuted_l. Qed.
+Print Assumptions life_early_release_refuted.
+
+(* ---------------------------------------------------------------------------------------------- *)
+(* QueuedEvent.wait / clear from outside the handlers, at any time relative to the dispatcher's wake-ups (Relock.v).
+   With fixes/C02-dispatcher-rechecks-wait.patch (recheck = true), for ALL handler lists and ALL sequences of waits,
+   clears and loop runs: the dispatcher never invokes the next handler / the callback while its current queue is locked. *)
+Theorem relock_no_overrun :
+  forall hs ops, k_bad (relock_states true hs ops) = false.
+Proof. exact relock_no_overrun_l. Qed.
+Print Assumptions relock_no_overrun.
+
+(* No lost wake-up and exactly one callback, in both versions: whenever the loop is idle (and no script misused a queue)
+   the dispatcher has finished and called the callback exactly once, or it sleeps on a queue that IS locked (so a clear
+   will wake it) and has not called the callback. *)
+Theorem relock_idle :
+  forall recheck hs ops,
+    let st := relock_states recheck hs ops in
+    k_err st = false ->
+    (k_disp st = KFinished /\ count_cb (k_log st) = 1%nat) \/
+    (k_disp st = KAwait /\ cur_locked st = true /\ count_cb (k_log st) = 0%nat).
+Proof. exact relock_idle_l. Qed.
+Print Assumptions relock_idle.
+
+(* The dispatcher as it was (`if queue.waiter:`): clear, lock again before the task wakes up - the second handler and the
+   callback run while queue 0 is locked. *)
+Theorem relock_lost_wait_refuted :
+  exists hs ops,
+    let st := relock_states false hs ops in
+    k_err st = false /\ k_bad st = true /\ k_disp st = KFinished /\ nth 0 (k_waiter st) false = true /\
+    rev (k_log st) = [KoInv 0; KoWait 0; KoClear 0; KoWait 0; KoInv 1; KoCb].
+Proof. exact relock_lost_wait_refuted_l. Qed.
+Print Assumptions relock_lost_wait_refuted.
+
+Example relock_no_overrun_sat :
+  let st := relock_states true ex_relock_hs ex_relock_ops in
+  k_err st = false /\ k_bad st = false /\ k_disp st = KAwait /\ cur_locked st = true /\
+  rev (k_log st) = [KoInv 0; KoWait 0; KoClear 0; KoWait 0] /\
+  (let st2 := relock_states true ex_relock_hs (ex_relock_ops ++ [KClear 0%nat]) in
+   k_disp st2 = KFinished /\ k_bad st2 = false /\ count_cb (k_log st2) = 1%nat).
+Proof. exact ex_relock_fixed. Qed.
+Print Assumptions relock_no_overrun_sat.
